@@ -69,11 +69,11 @@ def mc_cfg(name, branches, txs, faults, plain, dev=()):
                       "CHECK_DEADLOCK FALSE\n" % (_set(dev), _set(branches), ", ".join(str(t) for t in txs), faults, plain))
 
 
-def gen_cfg(name, maxbr, minlen, maxlen, maxfail):
+def gen_cfg(name, maxbr, minlen, maxlen, minfail, maxfail):
     return _write_cfg(name,
                       "SPECIFICATION Spec\nCONSTANTS\n KnownDeviations = {}\n MCBranches = {}\n MCTxs = {}\n MCFaults = 0\n"
-                      " MCPlain = 0\n MaxBr = %d\n MinLen = %d\n MaxLen = %d\n MaxFail = %d\nINVARIANT SetupSane\n"
-                      "CHECK_DEADLOCK FALSE\n" % (maxbr, minlen, maxlen, maxfail))
+                      " MCPlain = 0\n MaxBr = %d\n MinLen = %d\n MaxLen = %d\n MinFail = %d\n MaxFail = %d\nINVARIANT SetupSane\n"
+                      "CHECK_DEADLOCK FALSE\n" % (maxbr, minlen, maxlen, minfail, maxfail))
 
 
 def trace_cfg(name, dev):
@@ -260,16 +260,16 @@ def run(tier, seed):
     time.sleep(0.5)   # vlib.run_tlc numbers its metadirs without a lock
     # (B)
     scen = os.path.join(vlib.sub("scn"), "txn.ndjson")
-    # (MaxBr, MinLen, MaxLen, MaxFail) per generation run; the runs do not overlap
+    # (MaxBr, MinLen, MaxLen, MinFail, MaxFail) per generation run; the runs do not overlap
     if tier == "quick":
-        universes = [(3, 1, 3, 1)]
+        universes = [(3, 1, 3, 0, 1)]
     else:
-        universes = [(3, 1, 3, 2), (3, 4, 4, 1)]
+        universes = [(3, 1, 3, 0, 1), (3, 4, 4, 0, 1), (2, 1, 3, 2, 2)]
     gens = []
     with open(scen, "w") as allf:
-        for gi, (maxbr, minlen, maxlen, maxfail) in enumerate(universes):
+        for gi, (maxbr, minlen, maxlen, minfail, maxfail) in enumerate(universes):
             part = scen + ".%d" % gi
-            res = vlib.run_tlc("TxnGen", gen_cfg("TxnGen.%s.%d.cfg" % (tier, gi), maxbr, minlen, maxlen, maxfail),
+            res = vlib.run_tlc("TxnGen", gen_cfg("TxnGen.%s.%d.cfg" % (tier, gi), maxbr, minlen, maxlen, minfail, maxfail),
                                workers=max(2, vlib.NCPU - 4), scn_out=part, timeout=3000, heap="2g")
             vlib.require_ok(res, "TxnGen %s" % (universes[gi],))
             if res.scn == 0:
@@ -332,7 +332,7 @@ def run(tier, seed):
         "evaluations": out.total + n_traces,
         "distinct_nontrivial": nontrivial + known_fail,
         "rule": "one scenario per initial state of TxnGen (1..3 staged branches, each new or existing, x every "
-                "sequence of CommitTx/Discard operations x injected failures, for (MaxBr, MinLen, MaxLen, MaxFail) in "
+                "sequence of CommitTx/Discard operations x injected failures, for (MaxBr, MinLen, MaxLen, MinFail, MaxFail) in "
                 "%s, each failure at every "
                 "store-operation index 1..2n+1 (commit) / 1..n+1 (discard) and of both kinds error/crash); "
                 "scenarios are distinct by construction (distinct TLC states); non-trivial = more than one "
